@@ -36,6 +36,8 @@ for d in sorted(glob.glob(os.path.join(ROOT, "seeded", "C*-m*"))):
             ct = os.path.join(d, "check_output_thorough.txt")
             if os.path.exists(ct):
                 t2 = open(ct).read()
+                if re.search(r"exit=2\s*$", t2):
+                    res, by = "missed by quick; thorough check: inconclusive (exit 2)", "the change makes `c13_transparent_outputs_1_2` trip its unwinding assertion (it moves two outputs where the bound derived from the code allows one): not a pass, not reported as a violation"
                 if re.search(r"exit=1\s*$", t2):
                     hs2 = sorted(set(h.split("::")[-1] for h in re.findall(r"harness=(\S+)", "\n".join(l for l in t2.split("\n") if l.startswith("  harness=") or "VIOLATION" in l))))
                     res, by = "missed by quick, **caught by the thorough check**", ", ".join("`%s`" % h for h in hs2)
@@ -47,5 +49,5 @@ print("| id | change (first sentence of the author's summary) | confirmed | resu
 print("|----|------|------|------|------|")
 for sid, summ, res, by, ok in rows:
     print(f"| {sid} | {summ} | {ok} | {res} | {by} |")
-c = sum(1 for r in rows if "caught" in r[2]); m = sum(1 for r in rows if r[2] == "missed")
+c = sum(1 for r in rows if "caught" in r[2]); m = sum(1 for r in rows if r[2].startswith("missed") and "caught" not in r[2])
 print(f"\n{len(rows)} changes, {c} caught, {m} missed, {len(rows)-c-m} not decided.")
